@@ -65,7 +65,7 @@ def gen_scenario(rng: random.Random, feat: dict | None = None) -> dict:
     ntasks = rng.randint(2, feat.get("max_tasks", 5))
     tasks = [chr(ord("a") + i) for i in range(ntasks)]
     icp = 1
-    fcp = rng.randint(1, feat.get("max_fcp", 4))
+    fcp = rng.randint(3 if feat.get("abs") == "many" else 1, feat.get("max_fcp", 4))
     recs_all = ["P1", "P1", "P2", "R1", "P3", "+P1/P2", "R1/$"]
     nsec = rng.randint(1, 2)
     recs = []
@@ -102,7 +102,7 @@ def gen_scenario(rng: random.Random, feat: dict | None = None) -> dict:
                 a = {"task": up}
                 if same_cycle_ok and r < 0.6:
                     a["off"] = 0
-                elif feat.get("abs") and r > 0.9 and home[up] == si and rec.startswith("P"):
+                elif feat.get("abs") and r > (0.9 - 0.4 * (feat.get("abs") == "many")) and home[up] == si and rec.startswith("P"):
                     a["abs"] = 0
                 else:
                     a["off"] = -rng.choice([1, 1, 1, 2])
@@ -147,10 +147,19 @@ def gen_scenario(rng: random.Random, feat: dict | None = None) -> dict:
                 opt[(t, o)] = rng.random() < 0.4
     # a custom/started/failed output only matters if referenced; ensure every task's
     # succeeded optionality is rendered at least once on its bare node lines.
+    if feat.get("abs") == "many" and recs[0].startswith("P") and len(tasks) >= 2:
+        # make sure a dependent of an absolute trigger spawns after the output completed
+        up, down = tasks[0], tasks[-1]
+        if {"lhs": None, "rhs": up} not in sections[0]["lines"]:
+            sections[0]["lines"].insert(0, {"lhs": None, "rhs": up})
+        if {"lhs": None, "rhs": down} not in sections[0]["lines"]:
+            sections[0]["lines"].insert(0, {"lhs": None, "rhs": down})
+        sections[0]["lines"].append({"lhs": {"task": up, "abs": 0, "out": "succeeded"}, "rhs": down})
     scn = {
         "icp": icp, "fcp": fcp, "tasks": tasks, "sections": sections,
         "customs": customs, "opt": [[t, o, v] for (t, o), v in sorted(opt.items())],
-        "runahead": rng.choice([0, 1, 1, 2, 2, 3, 4]) if feat.get("runahead", True) else 5,
+        "runahead": (rng.choice([0, 0, 1]) if feat.get("abs") == "many" else rng.choice([0, 1, 1, 2, 2, 3, 4]))
+        if feat.get("runahead", True) else 5,
         "queues": {}, "seed": rng.randrange(1 << 30),
         "fail_rate": rng.choice([0.0, 0.0, 0.15, 0.3]),
         "custom_rate": rng.choice([1.0, 1.0, 0.7]),
@@ -180,6 +189,16 @@ def gen_scenario(rng: random.Random, feat: dict | None = None) -> dict:
                 sel = rng.sample(ids, 1)
                 scn["ops"].append({"tick": tick, "cmd": "release", "args": {"tasks": [f"{p}/{t}" for p, t in sel]}})
         scn["ops"].sort(key=lambda o: o["tick"])
+    if feat.get("retries"):
+        scn["retries"] = {}
+        scn["tries"] = {}
+        for t in tasks:
+            if rng.random() < 0.5:
+                n_, m_ = rng.choice([1, 1, 2]), rng.choice([0, 0, 1])
+                scn["retries"][t] = [n_, m_]
+                scn["tries"][t] = (n_ + 1) * (m_ + 1)
+        scn["fail_rate"] = rng.choice([0.3, 0.5])
+        scn["submit_fail_rate"] = rng.choice([0.0, 0.2, 0.3])
     if feat.get("restart"):
         for _ in range(rng.choice([1, 1, 2])):
             scn["ops"].append({"tick": rng.randint(0, 10), "cmd": "restart",
@@ -244,6 +263,11 @@ def render_flow(scn, extra_sched="", extra_runtime=None) -> str:
         out.append(f"    [[{t}]]")
         for k, v in (extra_runtime or {}).get(t, {}).items():
             out.append(f"        {k} = {v}")
+        if t in scn.get("retries", {}):
+            n_, m_ = scn["retries"][t]
+            out.append(f"        execution retry delays = {n_}*PT0S")
+            if m_:
+                out.append(f"        submission retry delays = {m_}*PT0S")
         if scn["customs"].get(t):
             out.append("        [[[outputs]]]")
             for c in scn["customs"][t]:
